@@ -184,7 +184,7 @@ theorem sim_kill (st : State) (j : J) (op : LOp) (p : Nat) (orc : List Nat) (hr 
     · rw [h]; exact hr.mid
     · rw [h]; exact hr.ctxs
     · rw [h]; exact hr.pend
-  · obtain ⟨h1, s1⟩ := killPipe_sim noSel op st j p hr.mid hr.cb
+  · obtain ⟨h1, s1⟩ := killPipe_sim noSel op hrace st j p hr.mid hr.cb
     have hsame := killPipe_same st p
     refine finish_simple st j op orc hr hu hrace hpost ?_ noSel ((killPipe st p).2.foldl (onOut op) j) ?_ ?_ (noSel_triv _) ?_ ?_
     · rw [h]
